@@ -1,9 +1,26 @@
 // Kani harness mounted inside noodles-vcf/src/io/reader/record.rs (lazy VCF record reader).
 #![allow(unused_imports, dead_code)]
 
+#[path = "/verif/harness/common.rs"]
+mod common;
+
 use std::io::{self, BufRead};
 
+use self::common::*;
 use super::*;
+
+/// Model of `memchr::memchr2` used under cfg(kani) by read_field (hook "memchr shim"): index of the FIRST
+/// byte equal to one of the two needles, None if absent, as a plain loop; DESIGN R18.  Trusted base.
+pub(crate) fn memchr2_model(n1: u8, n2: u8, haystack: &[u8]) -> Option<usize> {
+    let mut i = 0;
+    while i < haystack.len() {
+        if haystack[i] == n1 || haystack[i] == n2 {
+            return Some(i);
+        }
+        i += 1;
+    }
+    None
+}
 
 /// cpuid inline asm is not executable by Kani: report "no optional CPU features", so that memchr's
 /// runtime dispatch takes its (real) SSE2 implementation
@@ -11,10 +28,9 @@ pub fn fake_cpuid(_leaf: u32, _sub_leaf: u32) -> std::arch::x86_64::CpuidResult 
     std::arch::x86_64::CpuidResult { eax: 0, ebx: 0, ecx: 0, edx: 0 }
 }
 
-// @verif prop=C15 id=O15.vcf.lazy tier=off off_reason="does not fit: >1200 s (String pushes, from_utf8 and memchr2 under symbolic bytes)" unwind=22 timeout=1200 stubs="std::arch::x86_64::__cpuid_count->no optional CPU features (memchr2 runs its real SSE2 path)" bound="VCF line = fixed 'a TAB 1 TAB . TAB A TAB . TAB . TAB' + 5 ARBITRARY ASCII bytes (FILTER/INFO/terminators incl. TAB, CR, LF) + LF, read from a slice: if read_record returns Ok, then filters(), info(), samples() and reference_sequence_name() do not panic" fns="vcf::io::reader::record::read_record,read_field,read_required_field,Fields::filters,Fields::info,Fields::samples,Bounds::*_range"
+// @verif prop=C15 id=O15.vcf.lazy tier=off off_reason="does not fit: >1200 s (String pushes, from_utf8 and memchr2 under symbolic bytes)" unwind=22 timeout=1200 stubs="memchr::memchr2->first-occurrence loop (cfg(kani) source shim)" bound="VCF line = fixed 'a TAB 1 TAB . TAB A TAB . TAB . TAB' + 5 ARBITRARY ASCII bytes (FILTER/INFO/terminators incl. TAB, CR, LF) + LF, read from a slice: if read_record returns Ok, then filters(), info(), samples() and reference_sequence_name() do not panic" fns="vcf::io::reader::record::read_record,read_field,read_required_field,Fields::filters,Fields::info,Fields::samples,Bounds::*_range"
 #[kani::proof]
 #[kani::unwind(22)]
-#[kani::stub(std::arch::x86_64::__cpuid_count, fake_cpuid)]
 fn c15_vcf_lazy_record_accessors_after_ok_read() {
     let tail: [u8; 5] = kani::any();
     kani::assume(tail[0] < 0x80 && tail[1] < 0x80 && tail[2] < 0x80 && tail[3] < 0x80 && tail[4] < 0x80);
@@ -36,4 +52,71 @@ fn c15_vcf_lazy_record_accessors_after_ok_read() {
     }
     std::mem::forget(r);
     std::mem::forget(record);
+}
+
+fn read_field_step<const L: usize>() {
+    // arbitrary pre-state: what earlier fields of the line left in the line buffer (2 arbitrary ASCII bytes)
+    let pre: [u8; 2] = kani::any();
+    kani::assume(pre[0] < 0x80 && pre[1] < 0x80);
+    let mut dst = String::with_capacity(8);
+    dst.push(pre[0] as char);
+    dst.push(pre[1] as char);
+    let data: [u8; L] = kani::any();
+    let mut j = 0;
+    while j < L {
+        kani::assume(utf8_model_byte(data[j])); // precondition of the from_utf8 model (a real loop: assumptions are not index-generic)
+        j += 1;
+    }
+    let mut src = ChunkyBuf::new(&data).with_partial_budget(0);
+    match read_field(&mut src, &mut dst) {
+        Ok((n, is_eol)) => {
+            assert!(n <= L);
+            // one step of the bounds invariant: a field never takes bytes away from the fields before it,
+            // so every end offset recorded so far stays <= dst.len()
+            assert!(dst.len() >= 2, "read_field removed a byte of a previous field");
+            assert!(dst.as_bytes()[0] == pre[0] && dst.as_bytes()[1] == pre[1]);
+            kani::cover!(is_eol && dst.len() == 2 && n == 1);
+        }
+        Err(e) => std::mem::forget(e),
+    }
+    std::mem::forget(dst);
+}
+
+// @verif prop=C15 id=O15.vcf.field-step/2 tier=thorough unwind=6 timeout=1500 stubs="memchr::memchr2->first-occurrence loop (cfg(kani) source shim, documented contract); std::str::from_utf8->validator model exact on ASCII + 2-byte sequences (precondition asserted)" bound="ONE read_field step of the lazy VCF record reader from an ARBITRARY line-buffer pre-state (2 arbitrary ASCII bytes left by earlier fields) over an ARBITRARY 2-byte input in one fill_buf window (tab, CR, LF, non-UTF-8, anything; chunked delivery of symbolic bytes through str::from_utf8 does not fit: >14 GB): the bytes of earlier fields are still there afterwards -- the inductive step of 'field bounds stay inside the line buffer', which every vcf::Record accessor slices with" fns="vcf::io::reader::record::read_field"
+#[kani::proof]
+#[kani::unwind(6)]
+#[kani::stub(std::str::from_utf8, from_utf8_model)]
+fn c15_vcf_read_field_keeps_previous_fields_2() {
+    read_field_step::<2>();
+}
+
+// @verif prop=C12 id=O12.8 tier=quick unwind=6 stubs="memchr::memchr2->first-occurrence loop (cfg(kani) source shim, documented contract); std::str::from_utf8->validator model exact on ASCII + 2-byte sequences (precondition asserted)" bound="field bytes b0 b1 TAB where b0 b1 is ANY 2-byte UTF-8 character (b0 in C2..=DF, b1 in 80..=BF; VCF 4.3 text is UTF-8), delivered in two fill_buf windows split between the two bytes of the character (concrete split, R13; a solver-placed split runs out of memory in playback): same result as in one window -- Ok((3, false)) and the field text is that character" fns="vcf::io::reader::record::read_field"
+#[kani::proof]
+#[kani::unwind(6)]
+#[kani::stub(std::str::from_utf8, from_utf8_model)]
+fn c12_vcf_read_field_utf8_character_split() {
+    let b: [u8; 2] = kani::any();
+    kani::assume(b[0] >= 0xC2 && b[0] <= 0xDF && b[1] >= 0x80 && b[1] <= 0xBF);
+    let data = [b[0], b[1], b'\t'];
+    let mut src = ChunkyBuf::new(&data).split_at(1);
+    let mut dst = String::with_capacity(8);
+    match read_field(&mut src, &mut dst) {
+        Ok((n, is_eol)) => {
+            assert!(n == 3 && !is_eol);
+            assert!(dst.len() == 2 && dst.as_bytes()[0] == b[0] && dst.as_bytes()[1] == b[1]);
+        }
+        Err(e) => {
+            assert!(false, "a multi-byte character split across two fill_buf windows is rejected");
+            std::mem::forget(e);
+        }
+    }
+    std::mem::forget(dst);
+}
+
+// @verif prop=C15 id=O15.vcf.field-step/1 tier=quick unwind=5 stubs="memchr::memchr2->first-occurrence loop (cfg(kani) source shim, documented contract); std::str::from_utf8->validator model exact on ASCII + 2-byte sequences (precondition asserted)" bound="as O15.vcf.field-step/2 with an ARBITRARY 1-byte input (enough for the empty-last-field case: a lone LF after a field that ends in CR)" fns="vcf::io::reader::record::read_field"
+#[kani::proof]
+#[kani::unwind(5)]
+#[kani::stub(std::str::from_utf8, from_utf8_model)]
+fn c15_vcf_read_field_keeps_previous_fields_1() {
+    read_field_step::<1>();
 }
